@@ -46,7 +46,7 @@ warnings.simplefilter("ignore")
 _PLACEHOLDER = "☃"
 
 # retree.parse costs ~0.4 ms per pattern character (contracts on every cursor move): keep most
-# patterns short, a quarter of them larger
+# patterns short, one in eight larger
 AST_OPTS = regen.Opts(astral=10, surrogates=2, complement_astral=4, overlap=3, inner_anchors=4,
                       max_depth=2, max_terms=3, max_alts=2)
 AST_OPTS_LARGE = regen.Opts(astral=10, surrogates=2, complement_astral=4, overlap=3, inner_anchors=4)
@@ -95,7 +95,7 @@ def _fv() -> Any:
 
 def _tree_info(regex: Any) -> Dict[str, int]:
     """Count constructs of the returned tree (reads the documented attributes only)."""
-    info = {"quantifier": 0, "set": 0, "empty_set": 0, "fv": 0, "astral": 0}
+    info = {"quantifier": 0, "set": 0, "empty_set": 0, "fv": 0, "astral": 0, "caret_range_first": 0}
     stack = [regex]
     while stack:
         n = stack.pop()
@@ -116,6 +116,13 @@ def _tree_info(regex: Any) -> Dict[str, int]:
             info["set"] += 1
             if len(n.ranges) == 0:
                 info["empty_set"] += 1
+            elif (
+                not n.complementing
+                and n.ranges[0].end is not None
+                and n.ranges[0].start.character == "^"
+                and not n.ranges[0].start.explicitly_encoded
+            ):
+                info["caret_range_first"] += 1
             for r in n.ranges:
                 if ord(r.start.character) >= 0x10000 or (
                     r.end is not None and ord(r.end.character) >= 0x10000
@@ -196,7 +203,9 @@ def evaluate(pieces: Sequence[Any], strings: Sequence[str]) -> Tuple[List[Tuple[
     fails = []  # type: List[Tuple[str, str]]
     info = {"outcome": "raised"}  # type: Dict[str, Any]
     fv_mode = any(p is None for p in pieces)
-    pre = "fv:" if fv_mode else ""
+    # buckets name the root-cause class where it is recognisable from the input/tree, whatever the
+    # symptom (invalid rendering, different language, different tree) and whatever the input mode
+    pre = ""
     values = [_fv() if p is None else p for p in pieces]
     s = "".join(_PLACEHOLDER if p is None else p for p in pieces)
     shown = repr(s) if not fv_mode else repr([("<fv>" if p is None else p) for p in pieces])
@@ -245,10 +254,10 @@ def evaluate(pieces: Sequence[Any], strings: Sequence[str]) -> Tuple[List[Tuple[
                     fails.append((f"{pre}error-pointer-misdrawn",
                                   f"{shown}: regex_line={regex_line!r} pointer_line={pointer_line!r}"))
             except BaseException as e:  # noqa
-                b = xbucket(e)
+                b = "render_pointer-raises-" + xbucket(e)
                 if type(e).__name__ == "ViolationError" and re.search("[\n\f\v\r]", s):
-                    b = "ViolationError@parse/retree/_parse.py:render_pointer:line-break-before-error-position"
-                fails.append((f"{pre}render_pointer-raises-{b}",
+                    b = "render_pointer-raises-on-line-break-before-error-position"
+                fails.append((b,
                               f"render_pointer of the error of {shown} ({err.message!r}) raised:\n"
                               f"{runner.exc_text(e)}"))
         return fails, info
@@ -256,7 +265,11 @@ def evaluate(pieces: Sequence[Any], strings: Sequence[str]) -> Tuple[List[Tuple[
     info["outcome"] = "accepted"
     tinfo = _tree_info(tree)
     info.update(tinfo)
-    cls = "empty-char-set" if tinfo["empty_set"] else None
+    cls = None  # type: Optional[str]
+    if tinfo["empty_set"]:
+        cls = "empty-char-set-accepted"
+    elif tinfo["caret_range_first"]:
+        cls = "caret-range-first-in-set-rendered-without-end"
 
     try:
         dumped = retree.dump(tree)
@@ -276,25 +289,29 @@ def evaluate(pieces: Sequence[Any], strings: Sequence[str]) -> Tuple[List[Tuple[
     pr, r_err = _try_compile(r)
     info["s_compiles"] = ps is not None
     if ps is None:
-        c = cls or ("repetition-number-too-large" if "too large" in s_err else "other")
-        fails.append((f"{pre}accepted-but-invalid:{c}",
-                      f"retree accepts {shown} but re.compile rejects it: {s_err}; rendered: {r!r}"))
+        c = cls or ("repetition-number-beyond-re-limit" if "too large" in s_err
+                    else "accepted-but-invalid:other")
+        fails.append((c, f"accepted-but-invalid: retree accepts {shown} but re.compile rejects it: "
+                         f"{s_err}; rendered: {r!r}"))
     elif pr is None:
-        c = cls or ("repetition-number-too-large" if "too large" in r_err else "other")
-        fails.append((f"{pre}rendered-pattern-invalid:{c}",
-                      f"{shown} is rendered as {r!r}, which re.compile rejects: {r_err}"))
+        c = cls or ("repetition-number-beyond-re-limit" if "too large" in r_err
+                    else "rendered-pattern-invalid:other")
+        fails.append((c, f"rendered-pattern-invalid: {shown} is rendered as {r!r}, which re.compile "
+                         f"rejects: {r_err}"))
     else:
-        diff = _agree(ps, pr, strings)
+        finished, diff = regen.cpu_limited(lambda: _agree(ps, pr, strings))
+        if not finished:
+            info["re_budget_exceeded"] = True
         if diff is not None:
             if cls:
                 c = cls
             elif _SPACED_QUANT.search(s):
-                c = "quantifier-with-spaces"
+                c = "quantifier-with-blanks-read-as-quantifier"
             elif _has_non_ascii_digit_quantifier(s):
-                c = "non-ascii-digit-in-quantifier"
+                c = "non-ascii-digit-read-as-quantifier-bound"
             else:
-                c = "other"
-            fails.append((f"{pre}lang-differs:{c}", f"{shown} re-rendered as {r!r} differs {diff}"))
+                c = "lang-differs:other"
+            fails.append((c, f"lang-differs: {shown} re-rendered as {r!r} differs {diff}"))
 
     # (c) the rendering parses back to the same tree
     try:
@@ -302,13 +319,15 @@ def evaluate(pieces: Sequence[Any], strings: Sequence[str]) -> Tuple[List[Tuple[
     except BaseException as e:  # noqa
         fails.append((f"{pre}reparse-raises-{xbucket(e)}", f"{shown} -> {r!r}\n{runner.exc_text(e)}"))
         return fails, info
-    c = "escaped-brace" if ("\\}" in r or "\\{" in r) else "other"
     if err2 is not None:
-        fails.append((f"{pre}rerender-not-reparsable:{c}",
-                      f"{shown} is rendered as {r!r}, which retree rejects: {err2.message}"))
+        c = cls or ("rendered-escaped-brace-rejected-by-parser" if ("\\}" in r or "\\{" in r)
+                    else "rerender-not-reparsable:other")
+        fails.append((c, f"rerender-not-reparsable: {shown} is rendered as {r!r}, which retree "
+                         f"rejects: {err2.message}"))
     elif retree.dump(tree2) != dumped:
-        fails.append((f"{pre}rerender-tree-differs:{c}",
-                      f"{shown} -> {r!r}\n--- tree\n{dumped}\n--- re-parsed\n{retree.dump(tree2)}"))
+        c = cls or "rerender-tree-differs:other"
+        fails.append((c, f"rerender-tree-differs: {shown} -> {r!r}\n--- tree\n{dumped}\n"
+                         f"--- re-parsed\n{retree.dump(tree2)}"))
     return fails, info
 
 
@@ -333,6 +352,8 @@ def _record(ctx: runner.Ctx, gen: str, pieces: Sequence[Any], strings: Sequence[
         classes.append("re.compile(s):" + ("ok" if info.get("s_compiles") else "fails"))
         if info["astral"]:
             classes.append("accepted:astral")
+    if info.get("re_budget_exceeded"):
+        ctx.exclude("language comparison skipped: re backtracking exceeded the CPU allowance")
     shown = [("<fv>" if p is None else p) for p in pieces]
     ctx.case(nt, key=_case_json(pieces, [])["pieces"],
              sample={"pattern": shown[0] if len(shown) == 1 else shown, "rendered": info.get("r"),
@@ -340,7 +361,7 @@ def _record(ctx: runner.Ctx, gen: str, pieces: Sequence[Any], strings: Sequence[
              classes=classes)
     if fails:
         # keep the replay small: the strings matter only for language differences
-        keep = list(strings) if any(b.split(":")[0].endswith("lang-differs") for b, _ in fails) else []
+        keep = list(strings) if any(m.startswith("lang-differs") for _, m in fails) else []
         case = _case_json(pieces, keep)
         for b, m in fails:
             ctx.fail(b, case, m)
@@ -354,15 +375,15 @@ def shard(ctx: runner.Ctx) -> None:
 def _shard(ctx: runner.Ctx) -> None:
     from hypothesis import strategies as st
 
-    n = ctx.n(16_000, 2_000_000)
+    n = ctx.n(12_000, 2_000_000)
     if ctx.quick and ctx.shard == 0:
         n //= 3  # shard 0 also runs the corner cases and the atheris smoke stage
     pos_total = [0, 0]
 
     strategy = st.tuples(
         st.integers(0, 99),
-        st.one_of(regen.cases(AST_OPTS), regen.cases(AST_OPTS), regen.cases(AST_OPTS_LARGE),
-                  regen.cases(AST_OPTS_ANCHORED)),
+        st.one_of(*([regen.cases(AST_OPTS)] * 5 + [regen.cases(AST_OPTS_ANCHORED)] * 2
+                    + [regen.cases(AST_OPTS_LARGE)])),
     )
 
     def one(case: Any) -> None:
@@ -375,12 +396,12 @@ def _shard(ctx: runner.Ctx) -> None:
         if mode < 38:
             info = _record(ctx, "ast", [s], strings, extra)
             if info.get("s_compiles"):
-                try:
-                    p = re.compile(s)
+                p = re.compile(s)
+                ok, hits = regen.cpu_limited(
+                    lambda: sum(1 for t in strings[:n_pos] if p.fullmatch(t) or p.match(t)))
+                if ok:
                     pos_total[0] += n_pos
-                    pos_total[1] += sum(1 for t in strings[:n_pos] if p.fullmatch(t) or p.match(t))
-                except re.error:
-                    pass
+                    pos_total[1] += hits
         elif mode < 90:
             t = regen.mutate_text(s, rnd)
             strings = strings + generic_strings(t, rnd, 8)
@@ -567,7 +588,7 @@ def _atheris_child(out_path: str) -> None:
             size = len(s)
             if b not in seen_buckets or size < seen_buckets[b]:
                 seen_buckets[b] = size
-                keep = strings if "lang-differs" in b else []
+                keep = strings if m.startswith("lang-differs") else []
                 fh.write(json.dumps({"bucket": b, "case": _case_json([s], keep), "message": m[:3000]}) + "\n")
                 fh.flush()
 
@@ -601,6 +622,13 @@ def replay(case: Any) -> List[Tuple[str, str]]:
         s = "".join(_PLACEHOLDER if p is None else p for p in merged)
         strings = generic_strings(s, random.Random(0))
     return evaluate(merged, strings)[0]
+
+
+def shrink(case: Any, bucket: str, budget: float) -> Any:
+    """Structural shrinking, capped: the smallest case per bucket is already kept while exploring."""
+    from vlib.shrink import jshrink
+
+    return jshrink(case, lambda c: any(b == bucket for b, _ in replay(c)), min(budget, 5.0))
 
 
 def health(m: Any, tier: str) -> Any:
